@@ -23,6 +23,9 @@ TxtClause(c) ==
   ELSE IF ~SameItems(NormSeq(c.props), Norm(c.items)) THEN "C19_TxtLibraryDecode"
   \* the description that was given the dictionary reads it back the same way: bytes keys and values, same items
   ELSE IF ~c.obytes \/ ~SameItems(NormSeq(c.oprops), Norm(c.items)) THEN "C19_TxtLibraryDecode"
+  \* descriptions built from the same TXT octets do not share their dictionaries: what the application does to one of them
+  \* leaves the others (built before or afterwards) reading what their octets say
+  ELSE IF ~SameItems(NormSeq(c.aprops3), Norm(c.items)) \/ ~SameItems(NormSeq(c.aprops4), Norm(c.items)) THEN "C19_TxtNotShared"
   ELSE ""
 
 Clause(c) == IF c.kind = "name" THEN NameClause(c) ELSE TxtClause(c)
